@@ -441,6 +441,17 @@ PAYLOADS = [
     ("nested-fstring", "odd", "f\"{f'{1+1}'}\""),
     ("fstring-spec", "odd", "f\"{1:{2}}\""),
     ("fstring-conversion", "odd", "f\"{1!r}\""),
+    # replacement-field spellings: every part after the expression may be there or not, and may be empty
+    ("fstring-empty-spec", "odd", "f\"{1.5:}\""),
+    ("fstring-float-spec", "odd", "f\"{1.5:.1f}\""),
+    ("fstring-align-spec", "odd", "f\"{1.5:>8}\""),
+    ("fstring-debug", "odd", "f\"{1.5=}\""),
+    ("fstring-conversion-empty-spec", "odd", "f\"{1.5!s:}\""),
+    ("fstring-conversion-and-spec", "odd", "f\"{1.5!r:>6}\""),
+    ("fstring-str-empty-spec", "odd", "f\"{'a':}{'b'!s}\""),
+    ("fstring-escaped-braces", "odd", "f\"{{}}{1:}{{\""),
+    ("fstring-name-empty-spec", "odd", "f\"{led:}\""),
+    ("fstring-only-spec-fields", "odd", "f\"{1:{2}.{3}}\""),
     ("none", "odd", "None"),
     ("complex-literal", "odd", "1j"),
     ("dict-literal", "odd", "{1: 2}"),
